@@ -80,9 +80,9 @@ func parse(k string) []src.Script {
 }
 
 func plan(tier string, seed int64) []driver.Case {
-	mv2, mv3, nConc := 2, 1, 6
+	mv2, mv3, nConc := 3, 1, 30
 	if tier == "thorough" {
-		mv2, mv3, nConc = 3, 2, 120
+		mv2, mv3, nConc = 4, 2, 400
 	}
 	rng := rand.New(rand.NewSource(seed))
 	var cases []driver.Case
@@ -182,9 +182,18 @@ func setup(e *catalog.Entry) *harness {
 
 func (h *harness) cleanup() {
 	defer func() { recover() }()
-	for _, s := range h.srcs { // let blocked Subscribe calls return
-		if s.IsSubscribed() && s.Live.Load() > 0 {
-			func() { defer func() { recover() }(); s.Complete() }()
+	// let blocked Subscribe calls return: later sources get subscribed as earlier ones end
+	for round := 0; round < 2*len(h.srcs)+2; round++ {
+		for _, s := range h.srcs {
+			if s.IsSubscribed() && s.Live.Load() > 0 {
+				func() { defer func() { recover() }(); s.Complete() }()
+			}
+		}
+		select {
+		case <-h.subDone:
+			round = 1000
+		case <-time.After(3 * time.Millisecond):
+			quiesce.Settle(50 * time.Millisecond)
 		}
 	}
 	select {
@@ -528,9 +537,9 @@ func main() {
 		},
 		Exhaustive: func(tier string) string {
 			if tier == "thorough" {
-				return "all script tuples with ≤3 values per source (2 sources) / ≤2 (3 sources) × endings {C,E,silence} × all arrival orders"
+				return "all script tuples with ≤4 values per source (2 sources) / ≤2 (3 sources) × endings {C,E,silence} × all arrival orders"
 			}
-			return "all script tuples with ≤2 values per source (2 sources) / ≤1 (3 sources) × endings {C,E,silence} × all arrival orders"
+			return "all script tuples with ≤3 values per source (2 sources) / ≤1 (3 sources) × endings {C,E,silence} × all arrival orders"
 		},
 	})
 }
